@@ -33,7 +33,7 @@ PROP = {'engine': 'c20',
                  'delivered and where it is now); at most one witness per class and process, every observation is counted in the "violations <class>" counters',
                  'wall-clock watchdogs (status round trip, fewer drains than expected in the time they should take) only ever produce INCONCLUSIVE'],
  'min_cases': {'quick': 2000, 'thorough': 40000},
- 'min_stats': {'quick': {'pm_histories': 45, 'pm_blocks_sent_before_parent_in_chain': 60, 'pm_confirms_delivered_before_their_block': 60, 'pm_valid_txs_looked_up_in_pool': 100,
+ 'min_stats': {'quick': {'pm_histories': 45, 'pm_blocks_sent_before_parent_in_chain': 60, 'pm_confirms_delivered_before_their_block': 60, 'pm_valid_txs_looked_up_in_pool': 100, 'pm_batches_with_fresh_txs_and_txs_already_on_the_branch': 3,
                          'cache_block_ops': 15000, 'cache_confirm_ops': 5000},
                'thorough': {'pm_histories': 900, 'pm_blocks_sent_before_parent_in_chain': 1200, 'pm_confirms_delivered_before_their_block': 1200, 'pm_valid_txs_looked_up_in_pool': 2000,
                             'cache_block_ops': 300000, 'cache_confirm_ops': 100000}},
